@@ -405,6 +405,17 @@ func (g *FuncGen) applyContract(callee *ssa.Function, ct *Contract, sf *SpecFile
 		for n, v := range bindings {
 			cx.vars[n] = v
 		}
+		// a callee whose parameters were renamed since its contract was written: bind the recorded names too
+		if callee != nil {
+			if rec := g.env.Bindings[fnPkgPath(callee)+"|"+calleeKey(callee)]; rec != nil && len(rec.Params) == len(names) {
+				for i, rp := range rec.Params {
+					on := rp[:strings.Index(rp, "|")]
+					if _, have := cx.vars[on]; !have && on != names[i] && i < len(args) {
+						cx.vars[on] = sval{t: args[i], typ: ptypes[i], kind: "val"}
+					}
+				}
+			}
+		}
 		return cx
 	}
 	if len(names) != len(args) {
